@@ -144,7 +144,7 @@ func main() {
 	if c.race {
 		args = append(args, "-race")
 	}
-	args = append(args, "./props")
+	args = append(args, "./props/"+strings.ToLower(id))
 	cmd := exec.Command("go", args...)
 	cmd.Dir = vdir
 	cmd.Env = goEnv()
@@ -188,7 +188,7 @@ func main() {
 			lf, _ := os.Create(logf)
 			defer lf.Close()
 			cmd := exec.CommandContext(ctx, bin, "-test.run", "^"+c.test+"$", "-test.timeout", "0", "-test.v", "-test.count", "1")
-			cmd.Dir = filepath.Join(vdir, "props")
+			cmd.Dir = filepath.Join(vdir, "props", strings.ToLower(id))
 			cmd.Stdout = lf
 			cmd.Stderr = lf
 			cmd.SysProcAttr = &syscall.SysProcAttr{Setpgid: true}
